@@ -1179,10 +1179,20 @@ func streamEncRTU(seed uint64, thorough bool) {
 		for _, code := range []int{0, 1, 2, 3, 4, 11, 255, r.intn(256)} {
 			u := r.u8()
 			tid := r.u16()
-			emit("exc_bytes", L(I(0), I(int(tid)), I(int(u)), I(fc), I(code)),
-				B(packet.ErrorResponseTCP{TransactionID: tid, UnitID: u, Function: uint8(fc), Code: uint8(code)}.Bytes()))
-			emit("exc_bytes", L(I(1), I(0), I(int(u)), I(fc), I(code)),
-				B(packet.ErrorResponseRTU{UnitID: u, Function: uint8(fc), Code: uint8(code)}.Bytes()))
+			// each frame is encoded twice; the first result is overwritten by its owner (the caller)
+			// in between: a later frame must not depend on what was done to an earlier one
+			for rep := 0; rep < 2; rep++ {
+				t := packet.ErrorResponseTCP{TransactionID: tid, UnitID: u, Function: uint8(fc), Code: uint8(code)}.Bytes()
+				emit("exc_bytes", L(I(0), I(int(tid)), I(int(u)), I(fc), I(code)), B(t))
+				q := packet.ErrorResponseRTU{UnitID: u, Function: uint8(fc), Code: uint8(code)}.Bytes()
+				emit("exc_bytes", L(I(1), I(0), I(int(u)), I(fc), I(code)), B(q))
+				for i := range t {
+					t[i] ^= 0xA5
+				}
+				for i := range q {
+					q[i] ^= 0x5A
+				}
+			}
 		}
 	}
 }
@@ -1432,7 +1442,7 @@ func streamClassify(seed uint64, thorough bool) {
 	// every prefix of encoder outputs
 	nctor := 400
 	if thorough {
-		nctor = 4000
+		nctor = 800
 	}
 	cases := []ctor{}
 	for i := 0; i < nctor; i++ {
